@@ -583,7 +583,16 @@ func (s *Session) hostInfoFromMap(row map[string]interface{}, host *HostInfo) (*
 		// Not sure what the port field will be called until the JIRA issue is complete
 	}
 
-	ip, port := s.cfg.translateAddressPort(host.ConnectAddress(), host.port)
+	// ConnectAddress panics on a host without any usable address; the row comes from the server, so
+	// report it instead (this runs in the ring refresh and control connection goroutines)
+	host.mu.RLock()
+	addr, _ := host.connectAddressLocked()
+	host.mu.RUnlock()
+	if !validIpAddr(addr) {
+		return nil, fmt.Errorf("no valid connect address for host: %v. Is your cluster configured correctly?", host)
+	}
+
+	ip, port := s.cfg.translateAddressPort(addr, host.port)
 	host.connectAddress = ip
 	host.port = port
 
